@@ -33,6 +33,7 @@ FOR_RE = re.compile(r"\{%(-|\+|)\s*for\s+(" + NAME + r")\s+in\s+(" + NAME + r")\
 ENDFOR_RE = re.compile(r"\{%(-|\+|)\s*endfor\s*(-|\+|)%\}")
 COMMENT_RE = re.compile(r"\{#(-|\+|)(.*?)(\+#\}|-#\}|#\})", re.S)
 RAW_RE = re.compile(r"\{%(-|\+|)\s*raw\s*(?:-%\}\s*|%\})")
+LENIENT_FOR_RE = re.compile(r"\{%(-|\+|)\s*for\s+(" + NAME + r")\s+in\s+(" + NAME + r")\b.*?(-|\+|)%\}", re.S)
 LENIENT_VAR_RE = re.compile(r"\{\{(-|\+|)\s*(" + NAME + r")\b.*?(-?)\}\}", re.S)
 BEGIN_RE = re.compile(r"\{\{|\{%|\{#")
 WS_RE = re.compile(r"\s*")
@@ -88,6 +89,8 @@ def lex(source: str, lenient: bool = False) -> List[Node]:
                     tok, end, strip_next = ("var", mm.group(2)), mm.end(), mm.group(3) == "-"
         elif kind == "{%":
             mm = None if RAW_RE.match(src, start) else FOR_RE.match(src, start)
+            if mm is None and lenient and not RAW_RE.match(src, start):
+                mm = LENIENT_FOR_RE.match(src, start)  # `for x in xs|filter`, `for x in xs if …`: read as `for x in xs`
             if mm and mm.group(2) not in RESERVED and mm.group(3) not in RESERVED:
                 tok, end, strip_next = ("for", mm.group(2), mm.group(3)), mm.end(), mm.group(4) == "-"
             else:
